@@ -23,7 +23,8 @@ var _ tree = (*treePipeline)(nil)
 
 func newTreePipeline(cfg *config) tree {
 	growerFactory := func(lastNodeFormat, intermedialNodeFormat branchFormat, dryrun bool, encode encode) growerPipeline {
-		if encode != encodeDefault {
+		// the encoders need neither branches nor paths. a dry run prints the tree, whatever the encode option says.
+		if encode != encodeDefault && !dryrun {
 			return newNopGrowerPipeline()
 		}
 		return newGrowerPipeline(lastNodeFormat, intermedialNodeFormat, dryrun)
